@@ -132,6 +132,8 @@ enum Op {
     CReset,
     /// chewing_config_set_int(name, value): index into CFG_NAMES, any int
     CSetInt(u8, i32),
+    /// chewing_cand_list_first (0) / last (1) / next (2) / prev (3)
+    CCandList(u8),
     /// chewing_userphrase_add / remove (phrase, Bopomofo string)
     CUpAdd(String, String),
     CUpRemove(String, String),
@@ -190,6 +192,7 @@ fn op_line(op: &Op) -> String {
         Op::CCleanBopo => "ccleanbopo".into(),
         Op::CReset => "creset".into(),
         Op::CSetInt(n, v) => format!("cseti {} {}", CFG_NAMES[(*n as usize) % 13], v),
+        Op::CCandList(w) => format!("ccandlist {}", w),
         Op::CUpAdd(t, b) => format!("cupadd {}|{}", cps(t), cps(b)),
         Op::CUpRemove(t, b) => format!("cupremove {}|{}", cps(t), cps(b)),
     }
@@ -237,6 +240,7 @@ fn parse_op(l: &str) -> Op {
         "ccleanpre" => Op::CCleanPre,
         "ccleanbopo" => Op::CCleanBopo,
         "creset" => Op::CReset,
+        "ccandlist" => Op::CCandList(rest[0].parse().unwrap()),
         "cupadd" | "cupremove" => {
             let (t, b) = rest[0].split_once('|').unwrap();
             if name == "cupadd" { Op::CUpAdd(from_cps(t), from_cps(b)) } else { Op::CUpRemove(from_cps(t), from_cps(b)) }
@@ -459,6 +463,16 @@ fn apply_c(op: &Op) -> String {
             Op::CReset => {
                 chewing_Reset(c);
                 "-".into()
+            }
+            Op::CCandList(w) => {
+                use chewing_capi::candidates::*;
+                let rc = match w {
+                    0 => chewing_cand_list_first(c),
+                    1 => chewing_cand_list_last(c),
+                    2 => chewing_cand_list_next(c),
+                    _ => chewing_cand_list_prev(c),
+                };
+                format!("{}", rc)
             }
             Op::CUpAdd(t, b) | Op::CUpRemove(t, b) => {
                 let ct = std::ffi::CString::new(t.as_str()).unwrap();
@@ -1186,6 +1200,10 @@ fn to_c_op1(op: Op, rng: &mut Rng, cur: &[u32; 14]) -> Vec<Op> {
             if rng.chance(1, 3) { Op::CCleanPre } else { Op::CReset }
         }
         Op::ClearSyl => Op::CCleanBopo,
+        Op::JFirst => Op::CCandList(0),
+        Op::JLast => Op::CCandList(1),
+        Op::JNext => Op::CCandList(2),
+        Op::JPrev => Op::CCandList(3),
         Op::Layout(l) => {
             if rng.chance(1, 12) {
                 Op::KbType(*rng.pick(&[-1, 17, 18, 255, 256, 300, 1 << 20]))
